@@ -267,7 +267,7 @@ pub fn pick(db: &SimDb, n: u8, i: u8) -> MemoRef<Row> {
     let rs = e.rows(n);
     let row = &rs[bodies::row_index(rs.len(), i)];
     let r = db.intern_ref(row);
-    with_tracker(|t| t.interned(NKey::IRef(row.clone())));
+    with_tracker(|t| t.interned_ref(NKey::IRef(row.clone()), n));
     with_tracker(|t| t.exit(&key, row_identity(row)));
     r
 }
@@ -309,28 +309,14 @@ pub fn via_ref(db: &SimDb, r: MemoRef<Row>) -> i64 {
 }
 
 // twins: (a) identical name and signature in two modules, different bodies
-pub mod twins_a {
-    use super::*;
-    #[memo]
-    pub fn twin(db: &SimDb, k: u8) -> i64 {
-        let key = NKey::TwinA(k);
-        with_tracker(|t| t.enter(key.clone()));
-        let v = bodies::twin_a_value(&Real(db), k);
-        with_tracker(|t| t.exit(&key, v));
-        v
-    }
-}
-pub mod twins_b {
-    use super::*;
-    #[memo]
-    pub fn twin(db: &SimDb, k: u8) -> i64 {
-        let key = NKey::TwinB(k);
-        with_tracker(|t| t.enter(key.clone()));
-        let v = bodies::twin_b_value(&Real(db), k);
-        with_tracker(|t| t.exit(&key, v));
-        v
-    }
-}
+// The two modules live in two copy-pasted files (twins/twins_a.rs, twins/twins_b.rs): the
+// `#[memo]` attributes sit at the same line and column, the signatures are token-identical and
+// the module paths differ only in their last character, so nothing but the module path can
+// tell the two functions apart.
+#[path = "twins/twins_a.rs"]
+pub mod twins_a;
+#[path = "twins/twins_b.rs"]
+pub mod twins_b;
 // (b) different names, same parameters
 #[memo]
 pub fn twin_c(db: &SimDb, k: u8) -> i64 {
